@@ -1861,3 +1861,75 @@ def while_loop_contract(cond_fun, body_fun, init_val):
     W.assumptions.add("lax.while_loop fixed point replaced by an arbitrary positive value (contract)") if hasattr(W, "assumptions") else None
     res = SymArr(x0.axes, {(): K.atom(reg[form], *order)})
     return (res,) + tuple(init_val[1:])
+
+
+# ------------------------------------------------------------------ further jnp functions (robustness against harmless refactors)
+def repeat(x, repeats, axis=None):
+    """jnp.repeat(x, n, axis): every slice along `axis` repeated n times in place = the product axis (slice, copy)"""
+    W.count("repeat")
+    x = _lift(x).fresh_copy()
+    if axis is None:
+        raise ShimUnsupported("jnp.repeat without an axis")
+    if isinstance(repeats, (SymArr, IndexArr)):
+        raise ShimUnsupported("jnp.repeat with per-element repeats")
+    ax = axis % x.ndim
+    new = _axis_from_dim(repeats)
+    if isinstance(new, DSum) or isinstance(x.axes[ax], DSum):
+        raise ShimUnsupported("jnp.repeat on / by a block axis")
+    axes = list(x.axes)
+    axes[ax] = Axis(x.axes[ax].comps + new.comps)
+    return SymArr(axes, x.blocks)
+
+
+def power(x, p):
+    return _lift(x) ** p
+
+
+def reciprocal(x):
+    return 1.0 / _lift(x)
+
+
+def log1p(x):
+    return log(1.0 + _lift(x))
+
+
+def expm1(x):
+    return exp(_lift(x)) - 1.0
+
+
+def sinh(x):
+    x = _lift(x)
+    return 0.5 * (exp(x) - exp(-x))
+
+
+def identity(n, dtype=None):
+    return eye(n)
+
+
+def full(shape, fill_value, dtype=None):
+    return fill_value * ones(shape)
+
+
+def mean(x, axis=None, keepdims=False):
+    x = _lift(x)
+    if axis is None:
+        raise ShimUnsupported("jnp.mean without an axis")
+    n = x.shape[axis % x.ndim]
+    return sum(x, axis=axis, keepdims=keepdims) / n
+
+
+def diag(v, k=0):
+    """vector -> diagonal matrix, matrix -> its diagonal"""
+    v = _lift(v)
+    if k != 0:
+        raise ShimUnsupported("jnp.diag with an offset")
+    if v.ndim == 1:
+        return v[:, None] * eye(v.shape[0])
+    if v.ndim == 2:
+        return diagonal(v)
+    raise ShimUnsupported("jnp.diag of an array of rank > 2")
+
+
+def ravel(x):
+    x = _lift(x)
+    return reshape(x, (-1,))
